@@ -88,6 +88,42 @@ def h_anomaly(n, T, L, P, coverage):
     return fn
 
 
+def h_designated_fields(T, P):
+    """-c / -C together with -fcst FIELD (or -obs FIELD): the field designated as the forecast (observation)
+    is what gets scored, so it is what the climatology is removed from; the climatology is the climatology
+    file's value of the designated forecast field."""
+    def fn(S):
+        data = load.modules["verif.data"]
+        f = load.modules["verif.field"]
+        ax = load.modules["verif.axis"]
+        inputs, clim, store, cstore = build(S, 1, T, 1, P, False)
+        ctype = ["subtract", "divide"][S.choose("clim_type", 2)]
+        which = S.choose("designated", 2)
+        if which == 0:
+            D = data.Data(inputs, clim=clim, clim_type=ctype, fcst_field=f.Other("extra"))
+            src = {"obs": "obs", "fcst": "extra"}
+            xsrc = "extra"
+        else:
+            D = data.Data(inputs, clim=clim, clim_type=ctype, obs_field=f.Other("extra"))
+            src = {"obs": "extra", "fcst": "fcst"}
+            xsrc = "fcst"
+        o, fc = D.get_scores([f.Obs(), f.Fcst()], 0, ax.All(), None)
+        S.observe("obs", o)
+        S.observe("fcst", fc)
+        tag = "%s/%s" % (["-fcst extra", "-obs extra"][which], ctype)
+        for c in [(t, 0, p) for t in range(T) for p in range(P)]:
+            x = cstore[xsrc][c]
+            for nmf, got in (("obs", o[c]), ("fcst", fc[c])):
+                raw = store[0][src[nmf]][c]
+                want = (raw - x) if ctype == "subtract" else S.div(raw, x)
+                present = S.not_(S.isnan(got))
+                S.prove("climatology-removed-from-the-designated-%s-field" % nmf, S.implies(present, S.same(got, want)),
+                        twin=S.implies(present, S.same(got, want + 1)), detail=tag)
+                S.prove("only-if-defined", S.implies(present, S.and_(S.not_(S.isnan(raw)), S.not_(S.isnan(x)), S.isfinite(want))),
+                        twin=S.not_(present), detail=tag)
+    return fn
+
+
 def h_relation(T, L, P, thorough):
     """Shift-invariant scores under -c equal those with the climatology given
     as an additional input."""
@@ -160,6 +196,7 @@ def harnesses(tier):
         Harness("anomaly.coverage", h_anomaly(1, T, 1, P, True), "climatology in another order with extra entries"),
         Harness("relation", h_relation(T, 1, P, thorough), "-c X  vs  X as additional input"),
         Harness("sequence", h_sequence(2, 1, 1), "whole-array request, then a score, vs a fresh dataset"),
+        Harness("designated_fields", h_designated_fields(2, 1), "-c / -C together with -fcst FIELD or -obs FIELD"),
         Harness("driver_options", __import__("harness.c13", fromlist=["h_dispatch"]).h_dispatch(only=["-c", "-C"]),
                 "-c / -C reach Data(clim=..., clim_type=...) and nothing else (driver.run with recorders)"),
     ]
